@@ -87,7 +87,7 @@ pub fn run(ctx: &mut Ctx) {
 }
 
 fn one(ctx: &mut Ctx, case: u64, rng: &mut Rng, scratch: &Scratch) {
-    let path = scratch.path("mig");
+    let mut path = scratch.path("mig");
     let unis: Vec<Universe> = (1..=rng.range(1, 3) as u8).map(|i| Universe::new(rng, i)).collect();
     {
         let mut store = Store::persistent(&path).expect("create");
@@ -168,6 +168,22 @@ fn one(ctx: &mut Ctx, case: u64, rng: &mut Rng, scratch: &Scratch) {
             return;
         }
         ctx.count("files_with_the_old_namespaces_table", 1);
+    }
+    // One file in four is, on top of that, in the on-disk format of iroh-docs 0.94..=0.98 (added after
+    // seeded change agent-C18-7): the first open converts the file and must still run the rebuilds.
+    if rng.chance(1, 4) {
+        let old = scratch.path("mig-old-format");
+        if let Err(e) = crate::oldfile::write_old_format(&path, &old, Default::default()) {
+            ctx.harness_error(format!("writing an old-format file failed: {e:?}"));
+            return;
+        }
+        if !crate::oldfile::is_refused_by_current_redb(&old) {
+            ctx.harness_error("the old-format file is not refused by the current redb");
+            return;
+        }
+        let _ = std::fs::remove_file(&path);
+        path = old;
+        ctx.count("files_in_the_old_on_disk_format", 1);
     }
     let cycles = rng.range(1, 3);
     for cycle in 0..cycles {
@@ -258,4 +274,7 @@ fn one(ctx: &mut Ctx, case: u64, rng: &mut Rng, scratch: &Scratch) {
             "records_doc0": reference[0].entries.len()}));
     }
     let _ = std::fs::remove_file(&path);
+    let mut backup = path.clone().into_os_string();
+    backup.push(".backup-redb-v2-tuples");
+    let _ = std::fs::remove_file(std::path::PathBuf::from(backup));
 }
